@@ -46,13 +46,18 @@ def make_case(seed, i, tier):
     elif mode == "B":
         prof["workers_choices"] = [2, 3, 4, 99]
         prof["n_intf_choices"] = [3, 4, 5, 6]
-    if rng.random() < 0.12:
+    if rng.random() < 0.18:
         prof.update(engine="turtlemd", maxlength=2000, steps=8)
         N = 8
         if mode == "A":
             # in scope for byte equality only with an order parameter representable at six decimals
             prof.update(rounded_op=True, allowmaxlength=True, workers=1)
     scn = SC.gen_scenario(rng, prof)
+    if scn["engine"] == "turtlemd" and mode == "A" and scn.get("rounded_op") and rng.random() < 0.7:
+        # the example's own move mix: many wire-fencing ensembles give large weights and therefore very
+        # small probabilities / accumulated fractions
+        scn["moves"] = ["sh", "sh", "wf", "wf", "wf", "wf", "wf", "wf"]
+        scn["n_jumps"] = 6
     if scn["engine"] == "turtlemd" and mode == "A" and not scn.get("rounded_op"):
         # real-valued order parameters are stored with six decimals: straight-vs-restart byte
         # equality is outside the stated scope; TurtleMD runs check re-issue (B) and determinism (C)
